@@ -67,6 +67,7 @@ class AbstractAst:
         self.const_type_dict = dict()
         self.const_val_dict = dict()
         self.results = dict()
+        self.unread_inputs = dict()
         self.phi_name_to_node_dict = dict()
 
         self.modules = dict()
@@ -123,6 +124,7 @@ class AbstractAst:
         self.specs = []
         self.var_subspec_dict = dict()
         self.phi_name_to_node_dict = dict()
+        self.unread_inputs = dict()
         # every declared variable is an input again until this text assigns it
         self.free_vars = set(self.var_type_dict)
 
@@ -219,6 +221,9 @@ class AbstractAst:
         self.vars.add(var)
 
     def get_value(self, phi_name):
+        if phi_name not in self.phi_name_to_node_dict and phi_name in self.unread_inputs:
+            # a declared variable that no requirement reads: the data supplied for it
+            return self.unread_inputs[phi_name]
         node = self.phi_name_to_node_dict[phi_name]
         return self.results[node]
 
